@@ -59,7 +59,10 @@ class Scripted:
                 setattr(self, k, getattr(inst, k))
 
     def gen(self, rng, t):
-        return self._trace[t]
+        if t < len(self._trace):
+            return self._trace[t]
+        last = self._trace[-1]               # beyond the witness (random extensions of the search): let the core idle
+        return self._inst.idle_letter(last) if hasattr(self._inst, "idle_letter") else last
 
 
 def soc_parts(clk=2e6, baud=250000, depth=4, wd_width=12, wd_delay=5):
